@@ -125,7 +125,10 @@ def cbody(mc, p):
             else:
                 f.set_result("K" + kws[j - 1 - npos])
         return run
-    for j in range(len(allf)):
+    js = list(range(len(allf)))
+    if p.get("rev"):
+        js.reverse()        # the argument futures' resolvers come first in the default order
+    for j in js:
         mc.spawn(resolver(j), "r%d" % j)
     mc.sleep(3)
     mc.observe(out=snapshot(out), ncalls=len(calls),
@@ -135,7 +138,13 @@ def cbody(mc, p):
 harness("c16.conc", prop="C16", traced=("futures.apply", "map", "flat_map", "common"), horizon=20, params=_cparams())(cbody)
 oracle("c16.conc")(check)
 
+harness("c16.conc.narrow", prop="C16", traced=("common", "map"), horizon=20,
+        params=[dict(npos=1, kws=(), bad=None, pre=False), dict(npos=1, kws=(), bad=None, pre=False, rev=True),
+                dict(npos=0, kws=("a",), bad=None, pre=False, rev=True)])(cbody)
+oracle("c16.conc.narrow")(check)
+
 PLAN = {
-    "quick": [dict(harness="c16.apply", bound=0), dict(harness="c16.conc", bound=1)],
-    "thorough": [dict(harness="c16.apply.big", bound=0), dict(harness="c16.conc", bound=2)],
+    "quick": [dict(harness="c16.apply", bound=0), dict(harness="c16.conc", bound=2, select=lambda p: p["npos"] == 1 and not p["kws"]),
+              dict(harness="c16.conc", bound=1), dict(harness="c16.conc.narrow", bound=3)],
+    "thorough": [dict(harness="c16.apply.big", bound=0), dict(harness="c16.conc", bound=2), dict(harness="c16.conc.narrow", bound=3)],
 }
